@@ -497,6 +497,12 @@ struct Unit
     os << "Create HintDb " << t.name << "_db.\n#[global] Hint Unfold";
     for (size_t pi = 0; pi < t.paths.size(); ++pi) os << " " << t.name << "_p" << pi << " " << t.name << "_c" << pi;
     os << " : " << t.name << "_db.\n";
+    if (t.paths.size() > 8) {
+      // the exhaustiveness lemma is supplementary (each property theorem case-splits on the relation itself);
+      // its proof search grows exponentially with the number of decisions, so it is only emitted for small trees
+      os << "(* cover lemma omitted: " << t.paths.size() << " paths *)\n\n";
+      return;
+    }
     os << "Lemma " << t.name << "_cover : " << fa;
     for (size_t pi = 0; pi < t.paths.size(); ++pi) os << (pi ? " \\/ " : "") << t.name << "_c" << pi << params;
     os << ".\nProof. intros; unfold ";
